@@ -50,7 +50,7 @@ class Prop(PropBase):
             axis = rng.choice(["time", "time", "time", "freq", "other"])
             if cls == "Signal" and axis == "freq" and rng.random() < 0.8:
                 axis = "time"
-            L = rng.choice([1, 2, 3, 5, 16, 17, 64, rng.randint(1, 400)])
+            L = rng.choice([0, 1, 2, 3, 5, 16, 17, 64, rng.randint(1, 400)])     # "any signal": also one without time samples
             n = rng.choice([1, 2, 3, 4, 5, 8, 9])
             rate = rng.choice([("1", "Hz"), ("1", "kHz"), ("16", "MHz"), ("1", "GHz"), ("123.456", "MHz"), ("0.5", "Hz")])
             cf = rng.choice([("400", "MHz"), ("1.4", "GHz"), ("0", "Hz"), ("327", "MHz"), ("8", "GHz")])
